@@ -60,7 +60,10 @@ func genValidString(t *Tape, min int) string {
 		n = min
 	}
 	var b strings.Builder
-	alphabet := []string{"a", "b", "/", "é", "€", "𝄞", "\u007f", "\u0001", "+", "#", "z"}
+	// includes the first and last code point of every encoded length, the
+	// replacement character itself and non-characters (all well-formed)
+	alphabet := []string{"a", "b", "/", "é", "€", "𝄞", "\u007f", "\u0001", "+", "#", "z",
+		"\ufffd", "\uffff", "\u0080", "\u07ff", "\u0800", "\ud7ff", "\ue000", "\U00010000", "\U0010ffff"}
 	for b.Len() < n {
 		r := alphabet[t.Draw("schar", len(alphabet))]
 		if b.Len()+len(r) > n {
@@ -95,6 +98,14 @@ func famC09(w *World, spec *RunSpec, res *RunResult) {
 	w.Broker = NewBroker(w)
 	w.FaultsOff = true
 	w.MaxSteps = 200000
+	if t.Flip("slowwire", 300) {
+		// the transport accepts packets in pieces (a prefix, then the
+		// write deadline; the client has to continue where it stopped)
+		w.FaultsOff = false
+		w.Budget = 1 + t.Draw("slowbudget", 6)
+		x.NetOpts.ShortWrite = 300
+		x.NetOpts.ShortWriteProgress = true
+	}
 
 	// configuration: every field combination
 	var cfg mqtt.Config
